@@ -158,7 +158,7 @@ def readings_of(est, card):
     return out
 
 
-def judge_expression(res, est, items, g, m, world, case, clause_prefix="", finding=None, fkey=None, truth_fn=None):
+def judge_expression(res, est, items, g, m, world, case, clause_prefix="", finding=None, fkey=None, truth_fn=None, env_fn=None):
     """Compare est with P(items) (or truth_fn(a)) for every base assignment. Returns outcome label."""
     import itertools as itt
 
@@ -170,10 +170,11 @@ def judge_expression(res, est, items, g, m, world, case, clause_prefix="", findi
     event_names = {v for v, _, _ in items}
     failure = None
     for label, fn, free in readings:
-        stray = sorted({n for n, s in free if s is None and n not in event_names})
+        env0, _ = (env_fn or event_value_env)(items, next(iter(base_assignments(g.nodes))))
+        stray = sorted({n for n, s in free if s is None and n not in event_names and (n, None) not in env0})
         bad = None
         for a in base_assignments(g.nodes):
-            env, ambiguous = event_value_env(items, a)
+            env, ambiguous = (env_fn or event_value_env)(items, a)
             need_plain = {n for n, s in free if s is None}
             if need_plain & ambiguous:
                 return "unevaluable"
